@@ -621,9 +621,28 @@ func c02HandlerErrOnWire(c *core.Ctx) {
 			key := core.FuncName(fn) + ":error-frame"
 			// guarded by ev != nil, and every return of fn passes that test
 			var iff *ssa.If
+			// the error may pass through a converter of the module on its way into the frame (asStatusError(err)):
+			// the test is then made on what the converter is handed
+			evs := []ssa.Value{ev}
+			if cv, _, isCall := core.CallResult(ev); isCall {
+				if h := cv.Call.StaticCallee(); h != nil && h.Blocks != nil && h.Pkg != nil && strings.HasPrefix(h.Pkg.Pkg.Path(), core.ModulePath) {
+					nErr := 0
+					for i, pp := range h.Params {
+						if core.IsErrorType(pp.Type()) && i < len(cv.Call.Args) {
+							nErr++
+							evs = append(evs, cv.Call.Args[i])
+						}
+					}
+					if nErr != 1 {
+						evs = evs[:1]
+					}
+				}
+			}
 			for _, ef := range core.DominatingFacts(call) {
-				if ef.Fact.Op == token.NEQ && core.IsNilConst(ef.Fact.Y) && (ef.Fact.X == ev || core.SameVal(ef.Fact.X, ev) || sameOrigins(ef.Fact.X, ev)) {
-					iff = ef.If
+				for _, e := range evs {
+					if ef.Fact.Op == token.NEQ && core.IsNilConst(ef.Fact.Y) && (ef.Fact.X == e || core.SameVal(ef.Fact.X, e) || sameOrigins(ef.Fact.X, e)) {
+						iff = ef.If
+					}
 				}
 			}
 			if iff == nil {
@@ -650,7 +669,10 @@ func c02HandlerErrOnWire(c *core.Ctx) {
 			}
 			c.Check(okAll, key, call.Pos(), "every normal exit passes the 'err != nil ⇒ write error frame' decision", "an exit bypasses the 'err != nil ⇒ write error frame' decision: the handler's error could be lost")
 			// provenance: the handler's error
-			prov := handlerErrProvenance(p, fn, ev)
+			prov := false
+			for _, e := range evs {
+				prov = prov || handlerErrProvenance(p, fn, e)
+			}
 			c.Check(prov, key+":carries-handler-error", call.Pos(), "the frame carries the handler's error (result of the handler invocation / the finish parameter fed from it)", "the error frame does not carry the handler's own error value")
 		})
 	}
@@ -775,6 +797,10 @@ func derivesFromHandlerErrBound(v ssa.Value, hcalls []*ssa.Call, bind map[ssa.Va
 // invocation in fn (or its parent chain), or a parameter of fn that every
 // caller feeds from such a result.
 func handlerErrProvenance(p *core.Prog, fn *ssa.Function, ev ssa.Value) bool {
+	return handlerErrProvenanceDepth(p, fn, ev, 0)
+}
+
+func handlerErrProvenanceDepth(p *core.Prog, fn *ssa.Function, ev ssa.Value, depth int) bool {
 	hs := handlerInvocations(fn)
 	if core.OriginIs(ev, func(o ssa.Value) bool { return isErrResultOf(o, hs) }) {
 		return true
@@ -808,6 +834,10 @@ func handlerErrProvenance(p *core.Prog, fn *ssa.Function, ev ssa.Value) bool {
 					}
 				})
 				if core.OriginIs(arg, func(o ssa.Value) bool { return isErrResultOf(o, all) }) {
+					ok = true
+				}
+				// handed on from the caller's own parameter (a step function of the finisher)
+				if !ok && depth < 2 && caller.Parent() == nil && handlerErrProvenanceDepth(p, caller, arg, depth+1) {
 					ok = true
 				}
 			}
